@@ -20,3 +20,40 @@ def make_classifier(res, prop, findings):
                 return True
         return False
     return classify
+
+
+def lowercase_collision(res, prop, findings):
+    """D36: the output file is <source>_<lower-cased type>_validator.go, so two structs of one source file whose names
+    differ only in case are written to the same file and the first one silently gets no validator.  Control: the same two
+    structs in different source files must both be generated."""
+    import os
+    import genfam
+    from synth import basic, fld, scenario, struct
+    s, i = basic("string"), basic("int")
+    both = scenario("kfcase", [struct("User", [fld("Name", ["//govalid:required"], s)], [], file="x"),
+                               struct("user", [fld("age", ["//govalid:gt=3"], i)], [], file="x")])
+    apart = scenario("kfcasectl", [struct("User", [fld("Name", ["//govalid:required"], s)], [], file="x"),
+                                   struct("user", [fld("age", ["//govalid:gt=3"], i)], [], file="y")])
+    gr = genfam.GenRun(res, {"scenarios": [both, apart]}, "kfcase")
+    if not gr.generate() or gr.gen_status != 0:
+        res.violation({"kind": "generation-failed", "what": "govalid failed on two structs whose names differ only in case", "log_tail": getattr(gr, "gen_log", "")[-1500:]})
+        return
+
+    def defines(pkg, fn):
+        d = os.path.join(gr.moddir, pkg)
+        return any(("func %s(" % fn) in open(os.path.join(d, f)).read() for f in os.listdir(d) if f.endswith("_validator.go"))
+    ctl_ok = defines("kfcasectl", "ValidateUser") and defines("kfcasectl", "Validateuser")
+    if not ctl_ok:
+        res.violation({"kind": "spec-violation", "what": "structs User (x.go) and user (y.go) of one package: a validator is missing",
+                       "files": sorted(os.listdir(os.path.join(gr.moddir, "kfcasectl")))})
+    got_upper, got_lower = defines("kfcase", "ValidateUser"), defines("kfcase", "Validateuser")
+    res.coverage["lowercase_collision"] = {"same_file": {"ValidateUser": got_upper, "Validateuser": got_lower}, "different_files_ok": ctl_ok}
+    if got_upper and got_lower:
+        return
+    hit = [f for f in findings if f.get("class") == "kf_lowercase_file_collision"]
+    what = ("type User and type user in one source file: both map to x_user_validator.go; generated: ValidateUser=%s Validateuser=%s"
+            % (got_upper, got_lower))
+    if hit and (got_upper != got_lower):
+        res.known("%s %s: %s" % (hit[0]["id"], hit[0]["class"], hit[0]["what"]))
+    else:
+        res.violation({"kind": "spec-violation", "what": what, "files": sorted(os.listdir(os.path.join(gr.moddir, "kfcase")))})
